@@ -122,6 +122,10 @@ class _MapDynamicsServiceBase(_DynamicsServiceBase):
         
         Stores the config and invalidates the generator cache.
         """
+        if value != self._map_config:
+            # Results computed with the previous configuration must not be served again
+            self.reset()
+            self._sections.clear()
         self._map_config = value
         self._generator = None  # Invalidate cache to trigger recreation
 
